@@ -11,7 +11,9 @@ For every text t of the domain and every renderer R the following are compared:
   cli        `python -m mistletoe [-r pkg.Renderer] f1 ... fk` (real subprocess of /venv/bin/python,
              PYTHONPATH=$VERIF_REPO): exit status 0, empty stderr and stdout bytes equal to
              b''.join(markdown(text_i, R).encode() for i in 1..k)  (k = 1, 2, 3 and 40 files per
-             invocation; half of the files of a batch lack the final newline).
+             invocation; half of the files of a batch lack the final newline; every other renderer's
+             invocations run with PYTHONIOENCODING=latin-1: the output bytes are UTF-8 whatever stdout's
+             text encoding is).
 
 The oracle is the relation itself (two runs of the library must agree), as the property is a
 relation between runs.  Side condition of the quantifier: the only line terminator is '\\n', i.e. the
@@ -182,6 +184,10 @@ def cli_batch(args):
         env = dict(os.environ)
         env['PYTHONPATH'] = REPO
         env.pop('PYTHONIOENCODING', None)
+        if ri % 2 == 1:
+            # every other renderer runs with a stdout encoding that cannot represent most of Unicode: the tool writes
+            # bytes (UTF-8) to stdout.buffer, so what the terminal encoding is must not matter
+            env['PYTHONIOENCODING'] = 'latin-1'
         try:
             pr = subprocess.run(cmd, cwd=tmpdir, env=env, stdout=subprocess.PIPE, stderr=subprocess.PIPE,
                                 timeout=300)
